@@ -16,10 +16,11 @@ deriving DecidableEq, Repr, Inhabited
 structure NtState where
   cfg : Cfg := ⟨initSt 0, []⟩
   status : List Status := []
+  setMax : Int := 0          -- L0 view of the notifier's offset: the initial value and every Set the implementation has returned from
 deriving Inhabited
 
 def pausePcs : Kind → List Nat
-  | .wait _ => [3, 4, 5]
+  | .wait _ => [1, 3, 4, 5]
   | .set _ => [2, 3, 4]
   | .close => [2, 3]
 
@@ -65,7 +66,9 @@ def fmtStatus (n : NtState) : String :=
     match (n.status[j]? : Option Status), (n.cfg.ths[j]? : Option Th) with
     | some Status.new, _ => s!"{j}:new"
     | some Status.held, some t => s!"{j}:held@{t.pc}"
-    | some Status.blocked, _ => s!"{j}:blocked"
+    | some Status.blocked, some t =>
+      if (match t.kind with | .wait _ => true | _ => false) && t.pc == 6 then s!"{j}:parked" else s!"{j}:blocked"
+    | some Status.blocked, none => s!"{j}:blocked"
     | some (Status.done r), _ => s!"{j}:done:{r}"
     | _, _ => s!"{j}:?"))
 
@@ -90,15 +93,52 @@ def handle (n : NtState) (op impl : List String) : NtState × String × List Str
          | .wait off =>
            let midflight := n''.cfg.ths.any (fun u => (match u.kind with | .wait _ => false | _ => true) && !u.done && u.pc != 0)
            let parked := t.pc == 6 && !t.done
-           (if tok.endsWith ":blocked" ∧ parked ∧ n''.cfg.st.next > off ∧ ¬ midflight then ["LostWakeup"] else []) ++
-           (if tok.endsWith ":blocked" ∧ parked ∧ t.ctxDone then ["CancelIgnored"] else []) ++
+           (if (tok.endsWith ":blocked" ∨ tok.endsWith ":parked") ∧ parked ∧ n''.cfg.st.next > off ∧ ¬ midflight then ["LostWakeup"] else []) ++
+           (if tok.endsWith ":parked" ∧ t.ctxDone then ["CancelIgnored"] else []) ++
            let chClosed : Bool := match t.b with | some ch => n''.cfg.st.closedCh.contains ch | none => false
            (if tok.endsWith ":done:nil" && parked && !t.ctxDone && !chClosed then ["SpuriousWake"] else [])
          | _ => [])
       | _, _ => [])
-    (n'', "ok " ++ model, if String.intercalate " " implC == model then viols else viols)
+    -- every Set the implementation has returned from counts towards the offset (L0 view)
+    -- (a Set that races with or follows Close may return without storing: not counted)
+    let closeSeen := (List.range n''.status.length).any (fun j =>
+      match n''.cfg.ths[j]?, implSt[j]? with
+      | some t, some tok => (match t.kind with | .close => !tok.endsWith ":new" | _ => false)
+      | _, _ => false)
+    let setMax' := (List.range n''.status.length).foldl (fun acc j =>
+      match n''.cfg.ths[j]?, implSt[j]? with
+      | some t, some tok =>
+        (match t.kind with
+         | .set v => if tok.endsWith ":done:none" && v > acc && !closeSeen then v else acc
+         | _ => acc)
+      | _, _ => acc) n.setMax
+    -- a Wait that starts below the offset returns at once
+    let imm : List String := match op with
+      | ["nt.go", k] =>
+        let j := k.toNat?.getD 0
+        (match n.status[j]?, n.cfg.ths[j]?, implSt[j]? with
+         | some Status.new, some t, some tok =>
+           (match t.kind with
+            | .wait off => if n.setMax > off && !tok.endsWith ":done:nil" then ["NotImmediate"] else []
+            | _ => [])
+         | _, _, _ => [])
+      | _ => []
+    -- a waiter sitting in its select although a Set that passed its offset has returned, with no
+    -- Set/Close in flight (L0 view, from the implementation's own statuses)
+    let inflight := (List.range n''.status.length).any (fun j =>
+      match n''.cfg.ths[j]?, implSt[j]? with
+      | some t, some tok => (match t.kind with | .wait _ => false | _ => !(tok.endsWith ":new" || (tok.splitOn ":done:").length > 1))
+      | _, _ => false)
+    let lost := (List.range n''.status.length).flatMap (fun j =>
+      match n''.cfg.ths[j]?, implSt[j]? with
+      | some t, some tok =>
+        (match t.kind with
+         | .wait off => if tok.endsWith ":parked" && setMax' > off && !inflight then ["LostWakeupL0"] else []
+         | _ => [])
+      | _, _ => [])
+    ({ n'' with setMax := setMax' }, "ok " ++ model, viols ++ imm ++ lost)
   match op with
-  | ["nt.init", v] => ({ cfg := ⟨initSt (v.toInt?.getD 0), []⟩, status := [] }, "ok", [])
+  | ["nt.init", v] => ({ cfg := ⟨initSt (v.toInt?.getD 0), []⟩, status := [], setMax := v.toInt?.getD 0 }, "ok", [])
   | ["nt.spawn", _k, kind, arg] =>
     let a := arg.toInt?.getD 0
     let kd : Kind := if kind = "wait" then .wait a else if kind = "set" then .set a else .close
